@@ -96,16 +96,19 @@ def resetGroup (c : Cache) (group : String) : Cache := { c with groups := erase 
 /-- `reset_all_metadata()` -/
 def resetAll (c : Cache) : Cache := { c with t2b := [], topicParts := [], topicErrs := [], groups := [] }
 
-/-- `_update_brokers(brokers, remove)`.  Returns the new cache and the broker clients popped from
-    `clients` and handed to `_close_brokerclients` (set order in Python: compared sorted). -/
-def updateBrokers (c : Cache) (bs : List Broker) (remove : Bool) : Cache × List Int :=
-  let byId := dictOfList (bs.map (fun b => (b.nodeId, b)))
+/-- `_update_brokers` with `brokers_by_id` already built.  Returns the new cache and the broker
+    clients popped from `clients` and handed to `_close_brokerclients` (set order in Python: compared sorted). -/
+def updateBrokersDict (c : Cache) (byId : List (Int × Broker)) (remove : Bool) : Cache × List Int :=
   let brokers' := byId.foldl (fun d e => upsert e.1 e.2 d) c.brokers
   let clients' := c.clients.map (fun cl => match get? cl.1 byId with | some b => (cl.1, b) | none => cl)
   if remove then
     ({ c with brokers := brokers', clients := clients'.filter (fun cl => hasKey cl.1 byId) },
      (clients'.filter (fun cl => !hasKey cl.1 byId)).map (·.1))
   else ({ c with brokers := brokers', clients := clients' }, [])
+
+/-- `_update_brokers(brokers, remove)`: `brokers_by_id = {bm.node_id: bm for bm in brokers}` -/
+def updateBrokers (c : Cache) (bs : List Broker) (remove : Bool) : Cache × List Int :=
+  updateBrokersDict c (dictOfList (bs.map (fun b => (b.nodeId, b)))) remove
 
 /-- the body of the `for topic, topic_metadata in topics.items()` loop of `_merge_topic_metadata` -/
 def mergeTopic (c : Cache) (tm : TopicMeta) : Cache :=
@@ -124,7 +127,7 @@ def mergeTopic (c : Cache) (tm : TopicMeta) : Cache :=
 def mergeTopicMetadata (c : Cache) (bs : List Broker) (topics : List TopicMeta) (fetchedAll : Bool) :
     Cache × List Int :=
   let byId := dictOfList (bs.map (fun b => (b.nodeId, b)))
-  let (c1, closed) := updateBrokers c (byId.map (·.2)) (fetchedAll && !byId.isEmpty)
+  let (c1, closed) := updateBrokersDict c byId (fetchedAll && !byId.isEmpty)
   let tdict := dictOfList (topics.map (fun t => (t.name, t)))
   (tdict.foldl (fun c e => mergeTopic c e.2) c1, closed)
 
@@ -267,9 +270,20 @@ inductive HostSpec where
   | tup (host : String) (port : String)
   deriving Repr, DecidableEq
 
+/-- `str.split(c)` on characters (structural, so it evaluates in the kernel) -/
+def splitOnChar (c : Char) : List Char → List (List Char)
+  | [] => [[]]
+  | x :: xs =>
+    if x == c then [] :: splitOnChar c xs
+    else match splitOnChar c xs with
+      | [] => [[x]]
+      | h :: t => (x :: h) :: t
+
+def pySplit (c : Char) (s : String) : List String := (splitOnChar c s.toList).map String.ofList
+
 def parseHost : HostSpec → Option (String × Int)
   | .str s =>
-    match s.splitOn ":" with
+    match pySplit ':' s with
     | [] => none
     | [h] => some (pyStrip h, clientDefaultKafkaPort)
     | h :: p :: _ => (pyInt p).map (fun n => (pyStrip h, n))
